@@ -335,6 +335,7 @@ def run_dfs(case, ctx):
                     continue
                 stack.append(list(taken[:i]) + [alt])
     ctx.count("dfs_schedules", runs)
+    ctx.evaluated(runs)
     ctx.count("dfs_distinct_traces", len(seen))
     ctx.label("scenario=" + case["scenario"], f"T={case['t']}",
               "dfs-complete" if complete else "dfs-budget-hit")
